@@ -393,8 +393,8 @@ def c02(tier, seed, t0):
     from harness import enforce as H, violations as V
     n = int(os.environ.get("VERIF_N", 0)) or (10 if tier == "quick" else 40)
     res = R.run_pool(H.HNAME, H.chunks(tier, n), 170 if tier == "quick" else 3000, seed, tier,
-                     extra=dict(sample_rate=0.15 if tier == "quick" else 0.03, chunk_time=30 if tier == "quick" else 90,
-                                max_paths=60 if tier == "quick" else 120), shuffle=False)
+                     extra=dict(sample_rate=0.15 if tier == "quick" else 0.03, chunk_time=45 if tier == "quick" else 120,
+                                max_paths=250 if tier == "quick" else 400), shuffle=False)
     agg = R.merge(res)
     bounds = dict(program_instances=n, operators={k: sorted(v[1]) for k, v in sorted(V.OPS.items())},
                   sites="<= 4 sites per operator and program, spread over the file; the site is a solver-chosen index (one class per site)",
